@@ -11,6 +11,7 @@ RegConfs == Warm({C("reg", td, pg, c, i, FALSE) : td \in BOOLEAN, pg \in {0, 1, 
 RegNoCache == {c \in RegConfs : ~c.cache}
 RegCache == {c \in RegConfs : c.cache}
 \* smaller spaces for the 3-goroutine runs: paging matters with concurrency, the start content less
+RegFallbackPair == {c \in RegNoCache : c.init = "pair" /\ ~c.tagdel /\ c.page = 0}
 RegNoCacheShared == {c \in RegNoCache : c.init = "pair"}
 RegCacheShared == {c \in RegCache : c.init = "pair" /\ c.page = 0}
 LayClean == {C("layout", TRUE, 0, FALSE, i, FALSE) : i \in {"nodir", "empty", "pair", "untagged"}}
@@ -20,12 +21,19 @@ LayForeign == {C("layout", TRUE, 0, FALSE, i, FALSE) : i \in {"dupadj", "dupsep"
 LayDupAdj == {C("layout", TRUE, 0, FALSE, "dupadj", FALSE)}
 LayFullName == {C("layout", TRUE, 0, FALSE, i, FALSE) : i \in {"fullname", "mixed"}}
 LayForeignFixed == {C("layout", TRUE, 0, FALSE, i, TRUE) : i \in {"dupadj", "dupsep", "dupsame", "fullname", "mixed", "untagged", "pair", "nodir"}}
+\* the repaired code under concurrency: cache coherence and stable heads must hold
+Fix(S) == {[c EXCEPT !.fixed = TRUE] : c \in S}
+FixedConc == Fix(RegCache) \cup Fix(LayClean)
 SeqConfs == RegConfs \cup LayClean
 \* schedule generation: 3 tags in the registry so that paging has something to page
 RegConfs3 == Warm({C("reg", td, pg, c, i, FALSE) : td \in BOOLEAN, pg \in {0, 1, 2}, c \in BOOLEAN, i \in {"pair", "shared"}})
 LayConfs3 == {C("layout", TRUE, 0, FALSE, i, FALSE) : i \in {"pair", "shared", "untagged", "nodir"}}
 SchedConfs == RegConfs3 \cup LayConfs3
+\* exhaustive schedule enumeration (thorough): every interleaving of 2 goroutines x 1 operation on the
+\* registry variants where interleavings matter most (fall-back delete, paged listing, cache cold / warm)
+SchedAllConfs == {c \in RegConfs3 : c.init = "shared" /\ c.page = 1 /\ (c.cache => c.warm)}
 SeqConfs3 == RegConfs3 \cup LayConfs3 \cup {C("reg", td, pg, c, "empty", FALSE) : td \in BOOLEAN, pg \in {0, 1, 2}, c \in BOOLEAN}
 AllKinds == {"push", "pushd", "tagdel", "mdel", "mdelr", "head", "get", "list"}
 MutOnly == {"push", "pushd", "tagdel", "mdel", "mdelr"}
+HeadRaceKinds == {"push", "mdel", "head"}
 =============================================================================
